@@ -157,12 +157,13 @@ func VerifH_C17_wayGeometry() {
 // VerifH_C17_route: a route relation's joined line geometry preserves every segment
 // of its member ways, for every member order and direction of a 5-way chain.
 func VerifH_C17_route() {
-	pts := []orb.Point{{0, 0}, {1, 2}, {3, 3}, {5, 2}, {6, 0}, {8, 1}}
+	pts := []orb.Point{{0, 0}, {1, 2}, {3, 3}, {5, 2}, {6, 0}, {8, 1}, {9, 3}, {11, 4}}
+	pts = pts[:vParam("chain", 5)+1]
 	o := &osm.OSM{}
 	for i, p := range pts {
 		o.Nodes = append(o.Nodes, &osm.Node{ID: osm.NodeID(i + 1), Version: 1, Lon: p[0] + 1, Lat: p[1] + 1})
 	}
-	order := gPerm(5)
+	order := gPerm(len(pts) - 1)
 	tagged := vParam("taggedWays", 0) == 1
 	var members osm.Members
 	for _, k := range order {
